@@ -189,8 +189,8 @@ func r07_1mem(c *Ctx, rule string, loop *ssa.Function, upd *ssa.MapUpdate, cell 
 	incs, others := counterIncs(c, cell)
 	initOK := true
 	for _, s := range others {
-		if k, ok := eng.ConstInt(s.Val); !ok || k != 0 || inLoop[s] {
-			initOK = false
+		if k, ok := eng.ConstInt(s.Val); !ok || k != 0 || (inLoop[s] && eng.InCycle(s.Block())) {
+			initOK = false // (an initialisation in the loop's function but before the loop is fine)
 		}
 	}
 	c.R.Check(initOK, rule, base+"/initial", c.pos(upd), "the counter starts at 0 and is only ever advanced by one", "the id counter does not start at 0, or is assigned something other than counter+1")
